@@ -13,6 +13,7 @@ import Driver.Plug.Future
 import Driver.Plug.FutChain
 import Driver.Plug.WhenComb
 import Driver.Plug.Wake
+import Driver.Plug.Pipeline
 /-! The list of plug-in models (one import and one entry per model). -/
 namespace Driver
 
@@ -32,7 +33,8 @@ def plugins : List (String × Plug) := [
   ("futevt", Driver.PlugFuture.plugEvt),
   ("whenall", Driver.PlugWhenComb.plugAll),
   ("whenany", Driver.PlugWhenComb.plugAny),
-  ("wake", Driver.PlugWake.plug)
+  ("wake", Driver.PlugWake.plug),
+  ("pipe", Driver.PlugPipe.plug)
 ]
 
 end Driver
